@@ -257,6 +257,7 @@ func (c *DFACache) Clear() {
 	// Clear map (GC will reclaim memory)
 	c.states = make(map[StateKey]*State)
 	c.stateList = c.stateList[:0]
+	c.flatTrans = c.flatTrans[:0] // rows of the dropped states (see ClearKeepMemory)
 	c.startTable = newStartTableFromByteMap(&c.startTable.byteMap)
 	c.nextID = StateID(c.stride)
 	c.clearCount = 0
@@ -287,6 +288,10 @@ func (c *DFACache) ClearKeepMemory() {
 		delete(c.states, k)
 	}
 	c.stateList = c.stateList[:0]
+	// State IDs are handed out again from the first row: the old rows must not
+	// be read as transitions of the new states (Insert re-grows the table with
+	// InvalidState entries; the backing array is kept).
+	c.flatTrans = c.flatTrans[:0]
 	c.startTable = newStartTableFromByteMap(&c.startTable.byteMap)
 	c.nextID = StateID(c.stride)
 	c.clearCount++
@@ -343,6 +348,7 @@ func (c *DFACache) Reset() {
 		delete(c.states, k)
 	}
 	c.stateList = c.stateList[:0]
+	c.flatTrans = c.flatTrans[:0] // rows of the dropped states (see ClearKeepMemory)
 	c.startTable = newStartTableFromByteMap(&c.startTable.byteMap)
 	c.nextID = StateID(c.stride)
 	c.clearCount = 0
